@@ -559,6 +559,7 @@ func checkU23(c *Ctx, p *Prog, fn *ssa.Function) {
 	}
 	loop := blockSet(comps[0])
 	var header *ssa.BasicBlock
+	truesAfter := 0
 	for _, b := range comps[0] {
 		if boundedHeader(b, loop) {
 			header = b
@@ -587,7 +588,19 @@ func checkU23(c *Ctx, p *Prog, fn *ssa.Function) {
 			if !after {
 				p2 = append(p2, "returns true at "+p.InstrPos(ret)+" before every combination was examined")
 			}
+			truesAfter++
 		}
+		// after the loop the answer is true (every combination passed): false there rejects everything
+		if constString(cv) == "false" && header != nil {
+			for _, e := range DomEdges(b) {
+				if e.From == header && !loop[e.From.Succs[e.Succ]] {
+					p2 = append(p2, "returns false at "+p.InstrPos(ret)+" after every combination passed: the predicate is never true")
+				}
+			}
+		}
+	}
+	if truesAfter == 0 && header != nil {
+		p2 = append(p2, "the predicate never answers true")
 	}
 	// the per-combination body: the loop's own blocks, or - when the loop only calls one boolean
 	// helper on the visited combination and leaves with false when it says false - that helper
